@@ -23,7 +23,7 @@ From Anthem Require Import Base.ISet Syntax.Fol Syntax.Asp Sem.Domain Sem.Sat
   Model.Apply Model.SimplIntuit Model.SimplClassic Model.Problem Model.Outline Model.Strong Model.External
   Model.Tightness Model.PrivRec Model.TauStar Model.Completion Model.StrategyCls Model.ExternalFull
   Proofs.DecomposeOk Proofs.StrongOk Proofs.ExternalOk Proofs.C02Ok
-  Proofs.HeadPred Proofs.HeadPredPipeline Proofs.C19Ext Proofs.C19ExtFull Proofs.NoClashDec.
+  Proofs.HeadPred Proofs.HeadPredPipeline Proofs.C19Ext Proofs.C19ExtFull Proofs.NoClashDec Proofs.ExtFuel Proofs.ParserImagePipeline Proofs.NoPanic.
 Open Scope string_scope.
 Open Scope list_scope.
 
@@ -163,6 +163,113 @@ Theorem C19_external_same_claim :
     forall FI M, refutes_some FI M pbs <-> refutes_some FI M pbs'.
 Proof. exact C19_external_proof. Qed.
 Print Assumptions C19_external_same_claim.
+
+(* ---------------- 4. the fuel: C18_term_cls composed (audit A8) ---------------- *)
+(* Every theorem of section 3 (and of Properties/C02full.v) is stated for EVERY fuel of the
+   end-to-end model; [full_fuel] = 64 is the executable instance compared with the code.
+   Termination of the classic fixpoint loop is proved (C18_term_cls) and composed here: *)
+Theorem C19_external_executable_fuel : full_fuel = 64.
+Proof. reflexivity. Qed.
+Print Assumptions C19_external_executable_fuel.
+
+(* (i) an answer other than XNonterminating is the answer of every larger fuel *)
+Theorem C19_external_fuel_monotone :
+  forall (n : nat) (t : ext_task) (r : ext_outcome),
+    external_decompose_full n t = r -> r <> XNonterminating ->
+    forall m, n <= m -> external_decompose_full m t = r.
+Proof. exact external_decompose_full_mono. Qed.
+Print Assumptions C19_external_fuel_monotone.
+
+(* (ii) from [ext_fuel_bound t] passes on (the maximum of ClsTerm.classic_fuel over the completed
+   formulas of the task) the model never answers XNonterminating *)
+Theorem C19_external_never_nonterminating :
+  forall t : ext_task, exists n, forall m, n <= m -> external_decompose_full m t <> XNonterminating.
+Proof. exact external_never_nonterminating_exists. Qed.
+Print Assumptions C19_external_never_nonterminating.
+Theorem C19_external_never_nonterminating_bound :
+  forall (t : ext_task) (m : nat), ext_fuel_bound t <= m -> external_decompose_full m t <> XNonterminating.
+Proof. exact external_never_nonterminating. Qed.
+Print Assumptions C19_external_never_nonterminating_bound.
+
+(* every task has ONE answer (problems with warnings, an error value, or the panic) given by all
+   sufficiently large fuels; XNonterminating is only a fuel artefact *)
+Theorem C19_external_eventual_result :
+  forall t : ext_task,
+    exists n r, r <> XNonterminating /\ forall m, n <= m -> external_decompose_full m t = r.
+Proof. exact external_eventual_result. Qed.
+Print Assumptions C19_external_eventual_result.
+Theorem C19_external_nonterminating_is_fuel_artefact :
+  forall (n : nat) (t : ext_task), external_decompose_full n t = XNonterminating ->
+    exists m r, n < m /\ r <> XNonterminating /\ forall m', m <= m' -> external_decompose_full m' t = r.
+Proof. exact external_nonterminating_is_fuel_artefact. Qed.
+Print Assumptions C19_external_nonterminating_is_fuel_artefact.
+
+(* the validated task behind an accepted task - hence the premise validated_no_clash of the
+   theorems above and of C02 - does not depend on the fuel from an accepting one on *)
+Theorem C19_external_validated_fuel_independent :
+  forall (n m : nat) (t : ext_task) w pbs, n <= m ->
+    external_decompose_full n t = XOk w pbs ->
+    task_validated tau_star_total completion (simp_classic_total n) t
+    = task_validated tau_star_total completion (simp_classic_total m) t.
+Proof. exact external_validated_fuel_independent. Qed.
+Print Assumptions C19_external_validated_fuel_independent.
+
+(* the headline for "the result of the task": two tasks stating the same claim; from some number
+   of passes on both answers are fixed, and if both are acceptances the two families of problems
+   are refuted by the same interpretations *)
+Theorem C19_external_same_claim_eventually :
+  forall (t t' : ext_task), same_claim t t' ->
+    exists n r r',
+      (forall m, n <= m -> external_decompose_full m t = r /\ external_decompose_full m t' = r') /\
+      r <> XNonterminating /\ r' <> XNonterminating /\
+      forall w pbs w' pbs', r = XOk w pbs -> r' = XOk w' pbs' ->
+        forall m, n <= m ->
+        (forall vt, task_validated tau_star_total completion (simp_classic_total m) t = Some vt -> validated_no_clash vt) ->
+        (forall vt, task_validated tau_star_total completion (simp_classic_total m) t' = Some vt -> validated_no_clash vt) ->
+        forall FI M, refutes_some FI M pbs <-> refutes_some FI M pbs'.
+Proof.
+  intros t t' Hs.
+  destruct (external_eventual_result t) as [n [r [Hr Hn]]].
+  destruct (external_eventual_result t') as [n' [r' [Hr' Hn']]].
+  exists (Nat.max n n'), r, r'. split; [|split; [exact Hr|split; [exact Hr'|]]].
+  - intros m Hm. split; [apply Hn|apply Hn']; eapply Nat.le_trans; try exact Hm;
+      [apply Nat.le_max_l|apply Nat.le_max_r].
+  - intros w pbs w' pbs' -> -> m Hm Hc Hc'.
+    apply (C19_external_proof m t t' w pbs w' pbs' Hs); [apply Hn|apply Hn'|exact Hc|exact Hc'];
+      eapply Nat.le_trans; try exact Hm; [apply Nat.le_max_l|apply Nat.le_max_r].
+Qed.
+Print Assumptions C19_external_same_claim_eventually.
+
+(* ---------------- 5. where XPanic can come from (audit A8 b) ---------------- *)
+(* a `theory_translate` (tau*, replace_placeholders, completion, classic fixpoint) panics only by
+   the usize overflow of tau* (F11): completion never refuses a tau* theory with placeholders
+   replaced, and the classic rewrites never panic on completed tau* theories (parser image) *)
+Theorem C19_external_translate_panic_only_overflow :
+  forall (fuel : nat) (t : ext_task) (m : placeholders) (p : program),
+    program_vars_named p -> translate_status fuel t m p = TPanic -> TauStar.tau_star p = None.
+Proof. exact translate_status_panic_only_overflow. Qed.
+Print Assumptions C19_external_translate_panic_only_overflow.
+
+(* XPanic of the full model = F11 on one of the two programs, or a panic of the assembly AFTER the
+   translations (External.external_decompose: the proof-outline and role handling, C13 / C11) *)
+Theorem C19_external_panic_classes :
+  forall (fuel : nat) (t : ext_task),
+    program_vars_named (et_program t) ->
+    (forall L, et_specification t = inl L -> program_vars_named L) ->
+    external_decompose_full fuel t = XPanic ->
+    TauStar.tau_star (et_program t) = None \/
+    (exists L, et_specification t = inl L /\ TauStar.tau_star L = None) \/
+    external_decompose_total fuel t = Panic.
+Proof. exact external_panic_classes. Qed.
+Print Assumptions C19_external_panic_classes.
+
+(* the `expect("tau_star did not create a completable theory")` of the production caller
+   tau_star().replace_placeholders(..).completion(..) is unreachable *)
+Theorem C19_external_completion_expect_unreachable :
+  forall (P : program) (G : theory) (m : placeholders) (ins : list pred),
+    TauStar.tau_star P = Some G -> exists D, completion (rp_theory m G) ins = Some D.
+Proof. exact tau_star_rp_completable. Qed.
+Print Assumptions C19_external_completion_expect_unreachable.
 
 (* ---------------- non-vacuity ---------------- *)
 Definition aux : formula := FAtomic (AAtom "aux" []).
